@@ -752,9 +752,10 @@ class Model:
                 return
             raise Rejected('type' if t in ('path', 'list') else 'indirect', name, ctx, idx)
         if ctx == 'pgmname':
+            # likewise stated by the program: "A program name must be defined in terms of string."
             if pure:
                 return
-            raise Unspecified('non-string data inside a program name')
+            raise Rejected('type' if t in ('path', 'list') else 'indirect', name, ctx, idx)
         if ctx == 'int':
             involved = {t} | self.closure_types(name)
             if involved <= {'string'}:
